@@ -82,7 +82,8 @@ class C06(Prop):
             if target == "graph" and rng.random() < 0.4:
                 map_over = rng.sample(orig, rng.randint(1, len(orig)))
             yield {"target": target, "orig": orig, "defaults": defaults, "ctor": ctor, "batches": batches,
-                   "mapOver": map_over, "omit": [p for p in defaults if rng.random() < 0.6], "seedvals": rng.randint(0, 50)}
+                   "mapOver": map_over, "omit": [p for p in defaults if rng.random() < 0.6], "seedvals": rng.randint(0, 50),
+                   "use_first": rng.random() < 0.5}
 
     # ---------------------------------------------------------------- implementation
     def _node(self, case: dict, env: Env) -> Any:
@@ -104,6 +105,14 @@ class C06(Prop):
             if case["ctor"] and t != "graph":
                 spec["inRen"] = case["ctor"]
         node = build.build_node(spec, 0, [], env, async_bodies=False)
+        if case.get("use_first") and t not in ("graph", "graph-out"):
+            # use the node object before any rename call: read its cached views and place it in a graph
+            _ = (node.inputs, node.outputs, getattr(node, "defaults", None))
+            try:
+                others = [build.build_node({"name": "sink", "kind": "fn", "params": [], "dataOuts": ["sunk"], "body": {"b": "const", "v": 1}}, 0, [], Env(), async_bodies=False)] if t == "ifelse" else []
+                Graph([node] + others, name="warmup")
+            except Exception:  # noqa: BLE001 - only a warm-up
+                pass
         if t in ("graph", "graph-out"):
             inner = Graph([node], name="inner")
             node = inner.as_node(name="wrap")
